@@ -188,7 +188,13 @@ def generate(seed, tier, enlarged=False):
         cases.append({'kind': 'unitsinit', 'declared': rng.choice(['g', 'mg']), 'init_kg': rng.randint(1, 9),
                       'ups': [[rng.choice([125, 250, 500, 1000, 2000]), rng.choice(['declared', 'declared', 'kg'])]
                               for _ in range(rng.randint(1, 4))],
-                      'updater': rng.choice(['accumulate', 'nonnegative_accumulate'])})
+                      'updater': rng.choice(['accumulate', 'nonnegative_accumulate', 'set', 'set'])})
+    # '_reduce' updates (a reduction over a subtree assigned through the updater in force: the one named by the
+    # update's own '_updater' if there is one, else the declared one) - oracle only
+    for i in range(max(4, n // 40)):
+        cases.append({'kind': 'reduce', 'declared': rng.choice(['accumulate', 'set']),
+                      'named': rng.choice([None, 'set', 'accumulate']), 'v0': rng.randint(0, 5),
+                      'masses': [rng.randint(1, 9) for _ in range(rng.randint(1, 4))], 'rounds': rng.randint(2, 3)})
     for i in range(n):
         if i % 3 == 0:
             f = rng.choice(UPDATERS)
@@ -375,18 +381,41 @@ def run_impl(c):
             return {'ok': enc_val(r, np), 'update_mutated': u != u0}
         except Exception as e:
             return {'err': type(e).__name__}
+    if c['kind'] == 'reduce':
+        cfg = {'cells': {'k%d' % i: {'mass': {'_default': m, '_updater': 'accumulate'}} for i, m in enumerate(c['masses'])},
+               'total': {'_default': c['v0'], '_updater': c['declared']}}
+        store = Store(cfg)
+        store.apply_defaults()
+
+        def add_masses(value, path, node):
+            return value + node.value if node.leaf and isinstance(node.value, int) else value
+        seen = []
+        for r in range(c['rounds']):
+            upd = {'_reduce': {'from': ('..', 'cells'), 'initial': 0, 'reducer': add_masses}}
+            if c['named']:
+                upd['_updater'] = c['named']
+            store.apply_update({'total': upd})
+            seen.append(store.get_path(('total',)).value)
+            store.apply_update({'cells': {'k0': {'mass': 1}}})
+        return {'ok': 1, 'seen': seen}
     if c['kind'] == 'unitsinit':
         du = getattr(units, c['declared'])
         store = Store({'m': {'_default': 0 * du, '_units': du, '_updater': c['updater']}})
         store.apply_defaults()
         store.set_value({'m': c['init_kg'] * units.kg})            # as an initial state does: no conversion
         seen = []
+        touched = []
         for mag, u in c['ups']:
             q = mag * (du if u == 'declared' else units.kg)
+            was = (q.magnitude, str(q.units))
             store.apply_update({'m': q})
             v = store.get_path(('m',)).value
             seen.append([str(v.units), float(v.to('mg').magnitude)])
-        return {'ok': 1, 'seen': seen}
+            # the update handed in is the caller's object: same magnitude, same units afterwards (== would not
+            # tell: 2 kg == 2000 g)
+            if (q.magnitude, str(q.units)) != was:
+                touched.append('%r %s -> %r %s' % (was + (q.magnitude, str(q.units))))
+        return {'ok': 1, 'seen': seen, 'touched': touched}
     store = Store(dec_store(c['store'], np, units))
     mutated = False
     try:
@@ -558,11 +587,30 @@ def norm(v):
     return v
 
 
+def oracle_reduce(c, ob):
+    masses = list(c['masses'])
+    total = c['v0']
+    for r, got in enumerate(ob.get('seen', [])):
+        red = sum(masses)
+        total = red if (c['named'] or c['declared']) == 'set' else total + red
+        if got != total:
+            return [('round %d: a _reduce update (sum %d)%s on a variable declared %s gives %r, expected %r'
+                     % (r, red, ' carrying _updater: %s' % c['named'] if c['named'] else '', c['declared'], got, total),
+                     'wrong-result:reduce')]
+        masses[0] += 1
+    return []
+
+
 def oracle_unitsinit(c, ob):
     names = {'g': 'gram', 'mg': 'milligram'}
     per = {'g': 1000.0, 'mg': 1.0}
     total = c['init_kg'] * 1e6
+    if ob.get('touched'):
+        return [('the update object handed to a units variable (updater %s) was rewritten: %s' % (c['updater'], ob['touched'][0]),
+                 'update-mutated')]
     for (mag, u), (unit, mg) in zip(c['ups'], ob.get('seen', [])):
+        if c['updater'] == 'set':
+            total = 0.0
         total += mag * (per[c['declared']] if u == 'declared' else 1e6)
         if unit != names[c['declared']]:
             return [('a variable declared in %s, installed as %d kilogram, holds a quantity in %s after an update in %s'
@@ -575,6 +623,8 @@ def oracle_unitsinit(c, ob):
 
 
 def oracle(c, ob, rng):
+    if c['kind'] == 'reduce':
+        return oracle_reduce(c, ob) if 'ok' in ob else [('reduce stream raised: %s' % ob.get('err'), 'raises-in-domain:reduce')]
     if c['kind'] == 'unitsinit':
         return oracle_unitsinit(c, ob) if 'ok' in ob else [('units stream raised: %s' % ob.get('err'), 'raises-in-domain:units')]
     msgs = []
@@ -679,7 +729,7 @@ class R:
 
 
 def render(c, ob):
-    if c['kind'] == 'unitsinit':
+    if c['kind'] in ('unitsinit', 'reduce'):
         return None           # oracle only
     r = R()
     if c['kind'] == 'fun':
